@@ -24,7 +24,7 @@ ASSUMPTIONS = ["worker processes operate on pickled copies of the model", "multi
 
 def _relabel(ctx, check, old: str, new: str) -> None:
     before = len(ctx.instances)
-    check(ctx)
+    ctx.guard(check, ctx)
     for i in ctx.instances[before:]:
         if i["rule"] == old:
             i["rule"] = new
